@@ -236,42 +236,55 @@ def markLastSlice (b : BlockData) (k : Nat) : BlockData :=
 
 def arrEmpty : ShredArr := fun _ => none
 
-/-- `BlockData::add_shred` (with fix D2: a slice beyond a newly declared last slice is equivocation) -/
+/-- first stage of `add_shred`: the commitment cache (`none` = `Err(Equivocation)`) -/
+def cacheStep (b : BlockData) (s : Shred) : Option BlockData :=
+  match b.cache s.slice with
+  | some c => if c ≠ s.commitment then none else some b
+  | none => some { b with cache := upd b.cache s.slice (some s.commitment) }
+
+/-- second stage: last-slice bookkeeping (`none` = `Err(Equivocation)`); with fix D2: a slice
+    already seen beyond a newly declared last slice is equivocation -/
+def lastStep (b : BlockData) (s : Shred) : Option BlockData :=
+  match b.lastSlice with
+  | none =>
+    if s.isLast then
+      (if hasKeyAbove b.cap b.cache s.slice then none else some (markLastSlice b s.slice))
+    else some b
+  | some l =>
+    if (s.slice < l && !s.isLast) || (s.slice == l && s.isLast) then some b else none
+
+/-- `try_reconstruct_slice` then `try_reconstruct_block`, as at the end of `add_shred` -/
+def reconstruct (env : Nat → Content) (b : BlockData) (slice : Nat) : BlockData × AddRes :=
+  match tryReconstructSlice env b slice with
+  | (b, .noAction) => (b, .none)
+  | (b, .error) => (b, .err .invalidShred)
+  | (b, .panic) => (b, .panic)
+  | (b, .complete) =>
+    match tryReconstructBlock b with
+    | (b, .noAction) => (b, .none)
+    | (b, .error) => (b, .err .invalidShred)
+    | (b, .panic) => (b, .panic)
+    | (b, .complete info) => (b, .ev (.block info))
+
+/-- third stage: duplicate check, storing, first-shred event, reconstruction -/
+def storeStep (env : Nat → Content) (b : BlockData) (s : Shred) : BlockData × AddRes :=
+  let isFirst := mapEmpty b.cap b.shreds
+  let arr := (b.shreds s.slice).getD arrEmpty
+  if (arr s.idx).isSome then
+    ({ b with shreds := upd b.shreds s.slice (some arr) }, .err .duplicate)
+  else
+    let b := { b with shreds := upd b.shreds s.slice (some (upd arr s.idx (some s))) }
+    if isFirst then (b, .ev .firstShred)
+    else reconstruct env b s.slice
+
+/-- `BlockData::add_shred` -/
 def addShred (env : Nat → Content) (b : BlockData) (s : Shred) : BlockData × AddRes :=
-  -- commitment cache
-  match (match b.cache s.slice with
-         | some c => if c ≠ s.commitment then none else some b
-         | none => some { b with cache := upd b.cache s.slice (some s.commitment) }) with
+  match cacheStep b s with
   | none => (b, .err .equivocation)
-  | some b =>
-    -- last-slice bookkeeping
-    match (match b.lastSlice with
-           | none =>
-             if s.isLast then
-               (if hasKeyAbove b.cap b.cache s.slice then none else some (markLastSlice b s.slice))
-             else some b
-           | some l =>
-             if (s.slice < l && !s.isLast) || (s.slice == l && s.isLast) then some b else none) with
-    | none => (b, .err .equivocation)
-    | some b =>
-      let isFirst := mapEmpty b.cap b.shreds
-      let arr := (b.shreds s.slice).getD arrEmpty
-      if (arr s.idx).isSome then
-        ({ b with shreds := upd b.shreds s.slice (some arr) }, .err .duplicate)
-      else
-        let b := { b with shreds := upd b.shreds s.slice (some (upd arr s.idx (some s))) }
-        if isFirst then (b, .ev .firstShred)
-        else
-          match tryReconstructSlice env b s.slice with
-          | (b, .noAction) => (b, .none)
-          | (b, .error) => (b, .err .invalidShred)
-          | (b, .panic) => (b, .panic)
-          | (b, .complete) =>
-            match tryReconstructBlock b with
-            | (b, .noAction) => (b, .none)
-            | (b, .error) => (b, .err .invalidShred)
-            | (b, .panic) => (b, .panic)
-            | (b, .complete info) => (b, .ev (.block info))
+  | some b1 =>
+    match lastStep b1 s with
+    | none => (b1, .err .equivocation)
+    | some b2 => storeStep env b2 s
 
 /-- `BlockData::add_own_slice`: returns `(is_first, completed)`; `none` = Rust panic -/
 def addOwnSlice (b : BlockData) (c : Commitment) (sz : Nat) (parent : Option (Nat × Nat)) (txs : Option (List Nat)) :
